@@ -121,13 +121,21 @@ def sh(*a, **kw):
 
 def main():
     ids = sys.argv[1:] or sorted(os.listdir(f'{V}/seeded'))
-    import tempfile, shutil
-    work = tempfile.mkdtemp(prefix='govc-seedwork-')
-    sh('rsync', '-a', '--exclude', '.git', os.environ.get('GOVC_BASE_REPO', '/repo') + '/', work + '/')
-    try:
-        run(ids, work)
-    finally:
-        shutil.rmtree(work, ignore_errors=True)
+    import tempfile, shutil, threading
+    jobs = int(os.environ.get('SEED_JOBS', '4'))
+    chunks = [ids[i::jobs] for i in range(jobs)]
+    def worker(chunk):
+        if not chunk:
+            return
+        work = tempfile.mkdtemp(prefix='govc-seedwork-')
+        sh('rsync', '-a', '--exclude', '.git', os.environ.get('GOVC_BASE_REPO', '/repo') + '/', work + '/')
+        try:
+            run(chunk, work)
+        finally:
+            shutil.rmtree(work, ignore_errors=True)
+    ts = [threading.Thread(target=worker, args=(c,)) for c in chunks]
+    for t in ts: t.start()
+    for t in ts: t.join()
 
 def run(ids, work):
     for sid in ids:
@@ -144,14 +152,14 @@ def run(ids, work):
             continue
         out, rcs = '', {}
         try:
-            env = dict(os.environ, GOVC_EVIDENCE='/tmp/seed-evidence', GOVC_REPO=work)
+            env = dict(os.environ, GOVC_EVIDENCE=work + '-evidence', GOVC_REPO=work)
             for pr in props:
                 c = sh(f'{V}/bin/govc', 'check', '--property', pr, env=env)
                 out += c.stdout + c.stderr
                 rcs[pr] = c.returncode
         finally:
             sh('patch', '-s', '-R', '-p1', '-d', work, '-i', patch)
-            sh('rm', '-rf', '/tmp/seed-evidence')
+            sh('rm', '-rf', work + '-evidence')
         class _C: pass
         c = _C(); c.returncode = 1 if any(v == 1 for v in rcs.values()) else max(rcs.values())
         viol = [l for l in out.split('\n') if l.startswith('VIOLATION')]
